@@ -59,3 +59,35 @@ package cpuset
 //@   ensures #iff: result <==> (len(s.elems) == len(s2.elems) && (forall c int :: has(s.elems, c) ==> has(s2.elems, c)))
 //@   modifies nothing
 //@   loop 1 invariant forall c int :: $seen[c] ==> has(s2.elems, c)
+
+// ---- additions for property C06 (CPU ledger / accumulator call sites) ----
+
+// ToSliceNoSort lists exactly the members, each once, in an unspecified order.
+//@ func (CPUSet).ToSliceNoSort [C06]
+//@   ensures #members: forall i int :: {result[i]} 0 <= i && i < len(result) ==> has(s.elems, result[i])
+//@   ensures #all: forall c int :: {has(s.elems, c)} has(s.elems, c) ==> inSlice(result, c)
+//@   ensures #distinct: forall i int, j int :: 0 <= i && i < j && j < len(result) ==> result[i] != result[j]
+//@   ensures #fresh: len(result) == 0 || fresh(arr(result))
+//@   modifies allelems(scratchInts())
+//@   loop 1 invariant len(result) == 0 || fresh(arr(result))
+//@   loop 1 invariant forall i int :: {result[i]} 0 <= i && i < len(result) ==> has(s.elems, result[i]) && $seen[result[i]]
+//@   loop 1 invariant forall c int :: {$seen[c]} $seen[c] ==> inSlice(result, c)
+//@   loop 1 invariant forall i int, j int :: 0 <= i && i < j && j < len(result) ==> result[i] != result[j]
+
+//@ func (CPUSet).UnionSlice [C06]
+//@   ensures #set: forall c int :: has(result.elems, c) <==> (has(s.elems, c) || inSlice(s2, c))
+//@   ensures #fresh: result.elems != nil && fresh(result.elems)
+//@   modifies allelems(scratchInts())
+//@   loop 1 invariant b != nil && fresh(b) && !b.done && b.result.elems != nil && fresh(b.result.elems)
+//@   loop 1 invariant forall c int :: has(b.result.elems, c) <==> ($seen[c] && has(s.elems, c))
+//@   loop 2 invariant b != nil && fresh(b) && !b.done && b.result.elems != nil && fresh(b.result.elems)
+//@   loop 2 invariant 0 <= $i && $i <= len(s2)
+//@   loop 2 invariant forall c int :: has(b.result.elems, c) <==> (has(s.elems, c) || (exists i int :: 0 <= i && i < $i && s2[i] == c))
+
+//@ func NewCPUSet [C06]
+//@   ensures #set: forall c int :: has(result.elems, c) <==> inSlice(cpus, c)
+//@   ensures #fresh: result.elems != nil && fresh(result.elems)
+//@   modifies allelems(scratchInts())
+//@   loop 1 invariant b != nil && fresh(b) && !b.done && b.result.elems != nil && fresh(b.result.elems)
+//@   loop 1 invariant 0 <= $i && $i <= len(cpus)
+//@   loop 1 invariant forall c int :: has(b.result.elems, c) <==> (exists i int :: 0 <= i && i < $i && cpus[i] == c)
